@@ -2,6 +2,7 @@
    an independent HTTP/1.x response parser (RFC 7230 section 3.3.3 message
    framing for a client), mirrored line by line by harness/faultrig/parse.go,
    and the wire form of a response head + body in the three framings. *)
+From Coq Require Import ZArith.
 From FwdLib Require Import Bytes.
 Open Scope N_scope.
 
@@ -268,3 +269,23 @@ Definition error_lines (d2 d1 d0 : N) (name msg errtext : str) (close : bool) : 
 
 Definition error_wire (minor d2 d1 d0 : N) (reason name msg errtext : str) (close : bool) : str :=
   status_line minor d2 d1 d0 reason ++ CRLF ++ head_bytes (error_lines d2 d1 d0 name msg errtext close) ++ error_body name msg errtext.
+
+(* ---- relay of a rejected CONNECT (proxy_connect.go onProxyConnectResponse), proofs in Reject.v ---- *)
+(* io.ReadAll on the rejection's body: the whole announced body / the connection ended early (error) / the upstream
+   sends less than it announced — or an unframed body — and keeps its connection open: the read never ends by itself *)
+Inductive body_read := RdAll (bs : str) | RdFail | RdStall.
+
+(* shape flags (Tables.v): only_pos — the body is read iff ContentLength > 0 (other shape: iff ContentLength != 0, which
+   includes -1, a body without framing); bounded — the read is given up after the connect timeout *)
+Definition reject_reads (only_pos : bool) (cl : Z) : bool := if only_pos then (0 <? cl)%Z else negb (cl =? 0)%Z.
+
+(* the body relayed; None: the function never returns, the client gets nothing *)
+Definition reject_body (only_pos bounded : bool) (cl : Z) (rd : body_read) : option str :=
+  if reject_reads only_pos cl then
+    match rd with
+    | RdAll bs => Some bs
+    | RdFail => Some []
+    | RdStall => if bounded then Some [] else None
+    end
+  else Some [].
+
